@@ -324,3 +324,34 @@ func ExpectBudget(id string, maxSteps int, maxMillis int, f func()) {
 		Expect(id, false)
 	}
 }
+
+// GoCamelCase is protoc-gen-go's field-name rule (google.golang.org/protobuf/internal/strs,
+// BSD-licensed, reproduced because the package is internal): the identifier
+// protoc-gen-go declares for a proto field name.
+func GoCamelCase(s string) string {
+	lower := func(c byte) bool { return 'a' <= c && c <= 'z' }
+	digit := func(c byte) bool { return '0' <= c && c <= '9' }
+	var b []byte
+	for i := 0; i < len(s); i++ {
+		c := s[i]
+		switch {
+		case c == '.' && i+1 < len(s) && lower(s[i+1]):
+		case c == '.':
+			b = append(b, '_')
+		case c == '_' && (i == 0 || s[i-1] == '.'):
+			b = append(b, 'X')
+		case c == '_' && i+1 < len(s) && lower(s[i+1]):
+		case digit(c):
+			b = append(b, c)
+		default:
+			if lower(c) {
+				c -= 'a' - 'A'
+			}
+			b = append(b, c)
+			for ; i+1 < len(s) && lower(s[i+1]); i++ {
+				b = append(b, s[i+1])
+			}
+		}
+	}
+	return string(b)
+}
